@@ -485,7 +485,8 @@ class SpatialDriver(NetworkDriver):
         return SpatialNetwork
 
     def models(self, tier):
-        return [{"A": A6, "directed": False, "w": None, "la": {}}]
+        return [{"A": A6, "directed": False, "w": None, "la": {}},
+                {"A": A6_DISC, "directed": False, "w": None, "la": {}}]
 
     def construct(self, model):
         net = self.cls()(grid=plain_grid(),
@@ -550,6 +551,9 @@ class GeoDriver(SpatialDriver):
 
     def models(self, tier):
         return [{"A": A6, "directed": False, "w": None, "la": {},
+                 "nwt": "surface"},
+                # isolated node, several components
+                {"A": A6_DISC, "directed": False, "w": None, "la": {},
                  "nwt": "surface"}]
 
     def construct(self, model):
@@ -631,10 +635,24 @@ class ResDriver(Driver):
                           silence_level=3)
 
     def mutators(self, model):
-        return [("update_resistances(#%d)" % i, ["update_resistances", i])
-                for i in range(len(RES_R)) if i != model["R"]]
+        ms = [("update_resistances(#%d)" % i, ["update_resistances", i])
+              for i in range(len(RES_R)) if i != model["R"]]
+        # a parameter sweep that edits the caller's own array in place and
+        # hands the same object to update_resistances() again
+        ms += [("update_resistances(same array, edited in place to #%d)" % i,
+                ["update_inplace", i])
+               for i in range(len(RES_R)) if i != model["R"]][:1]
+        return ms
 
     def apply(self, obj, model, spec):
+        if spec[0] == "update_inplace":
+            r = self.last_inputs.get("resistances")
+            if r is None or r is not obj.resistances:
+                r = np.array(obj.resistances, dtype=float)
+                obj.update_resistances(r)
+            r[...] = np.array(RES_R[spec[1]], dtype=float)
+            obj.update_resistances(r)
+            return {"R": spec[1]}
         obj.update_resistances(np.array(RES_R[spec[1]], dtype=float))
         return {"R": spec[1]}
 
@@ -669,11 +687,24 @@ class ClimateDriver(Driver):
         return ClimateNetwork
 
     def models(self, tier):
-        return [{"t": 0.5, "non_local": False, "directed": False}]
+        return [{"t": 0.5, "non_local": False, "directed": False},
+                # caller's matrix already in the library's storage dtype,
+                # with negative similarities
+                {"t": 0.5, "non_local": False, "directed": False,
+                 "sim": "f32neg"}]
+
+    def similarity(self, model):
+        if model.get("sim") == "f32neg":
+            S = np.array(SIM6)
+            sign = np.where((np.add.outer(np.arange(6), np.arange(6)) % 3)
+                            == 1, -1.0, 1.0)
+            np.fill_diagonal(sign, 1.0)
+            return self.arr("similarity", S * sign, "float32")
+        return self.arr("similarity", SIM6)
 
     def construct(self, model):
         return self.cls()(grid=geo_grid(),
-                          similarity_measure=self.arr("similarity", SIM6),
+                          similarity_measure=self.similarity(model),
                           threshold=model["t"], non_local=model["non_local"],
                           directed=model["directed"],
                           node_weight_type="surface", silence_level=3)
@@ -811,7 +842,10 @@ class RPDriver(Driver):
 
     def models(self, tier):
         return [{"how": ["set_fixed_threshold", 0.6], "emb": [2, 1],
-                 "metric": "supremum"}]
+                 "metric": "supremum"},
+                # sequential RQA (no recurrence matrix kept)
+                {"how": ["set_fixed_threshold", 0.6], "emb": [2, 1],
+                 "metric": "supremum", "sparse": True}]
 
     def ctor_args(self, model):
         return (self.arr("time_series", TS_A),)
@@ -820,12 +854,20 @@ class RPDriver(Driver):
         kw = {RP_KW[model["how"][0]]: model["how"][1]}
         if model["emb"]:
             kw.update(dim=model["emb"][0], tau=model["emb"][1])
+        if model.get("sparse"):
+            kw["sparse_rqa"] = True
         return self.cls()(*self.ctor_args(model), metric=model["metric"],
                           silence_level=3, **kw)
 
     def mutators(self, model):
-        ms = [("%s(%g)" % s, [s[0], s[1]]) for s in self.setters
+        setters = self.setters
+        if model.get("sparse"):
+            # sequential mode is defined for fixed thresholds only
+            setters = [s for s in setters if s[0] == "set_fixed_threshold"]
+        ms = [("%s(%g)" % s, [s[0], s[1]]) for s in setters
               if [s[0], s[1]] != model["how"]]
+        if model.get("sparse"):
+            return ms
         if self.embedding_mutator:
             for e in ([2, 1], [3, 1], [2, 2]):
                 if e != model["emb"]:
@@ -855,7 +897,13 @@ class RPDriver(Driver):
     def queries(self, model):
         qs = Driver.queries(self, model)
         qs.append(["R", [], {}])
-        return qs
+        return [q for q in qs if self.admits(model, q)]
+
+    def admits(self, model, q):
+        # the memory-saving mode promises no stored recurrence matrix
+        if model.get("sparse") and q[0] in ("R", "recurrence_matrix"):
+            return False
+        return True
 
 
 register(RPDriver())
@@ -863,6 +911,9 @@ register(RPDriver())
 
 class RNDriver(RPDriver):
     name = "RecurrenceNetwork"
+
+    def models(self, tier):
+        return RPDriver.models(self, tier)[:1]
 
     def cls(self):
         from pyunicorn.timeseries import RecurrenceNetwork
@@ -904,6 +955,9 @@ class CRPDriver(RPDriver):
     def cls(self):
         from pyunicorn.timeseries import CrossRecurrencePlot
         return CrossRecurrencePlot
+
+    def models(self, tier):
+        return RPDriver.models(self, tier)[:1]
 
     def ctor_args(self, model):
         return (self.arr("x", TS_A), self.arr("y", TS_B[:8]))
@@ -1305,13 +1359,11 @@ register(CouplingDriver())
 
 class EventSeriesDriver(_QueryOnly):
     name = "EventSeries"
-    extra_queries = (
-        ["event_series_analysis", [], {"method": "ES"}],
-        ["event_series_analysis", [], {"method": "ECA",
-                                       "symmetrization": "mean"}],
-        ["event_series_analysis", [], {"method": "ES",
-                                       "symmetrization": "antisym"}],
-    )
+    extra_queries = tuple(
+        ["event_series_analysis", [], {"method": m, "symmetrization": sym}]
+        for m in ("ES", "ECA")
+        for sym in ("directed", "symmetric", "antisym", "mean", "max", "min")
+        if not (m == "ECA" and sym in ("symmetric", "antisym")))
 
     def cls(self):
         from pyunicorn.eventseries import EventSeries
